@@ -59,6 +59,7 @@ class Ctx:
         self.late_diffs = 0
         self.aborted = 0
         self.exec_digests = set()
+        self.abort_samples = []
         self.last_norm_files = None
         self.last_files_digest = None
         self.sub = 0
@@ -135,6 +136,12 @@ class Ctx:
             self.faults["scripted_fallbacks"] = self.faults.get("scripted_fallbacks", 0) + out["fallbacks"]
         if out["status"] != "ok":
             self.aborted += 1
+            e = out.get("exc") or {}
+            key = f"abort:{e.get('type')}:{e.get('frame') or e.get('where')}"
+            self.faults[key] = self.faults.get(key, 0) + 1
+            if len(self.abort_samples) < 3:
+                self.abort_samples.append({"argv": out.get("argv"), "type": e.get("type"), "msg": e.get("msg"), "frame": e.get("frame"),
+                                           "tb": (e.get("tb") or "")[-600:]})
         if out.get("files") != out.get("late_files"):
             self.late_diffs += 1
         self.last_norm_files = world.normalised_files(out, self.workdir)
@@ -160,7 +167,7 @@ class Ctx:
                 "wall_exec": self.wall_exec, "faults": self.faults, "signatures": sorted(self.signatures),
                 "nodes_hist": self.nodes_hist, "profile_hist": self.profile_hist, "mode_hist": self.mode_hist,
                 "late_diffs": self.late_diffs, "aborted": self.aborted, "stream_profiles": self.stream_profiles,
-                "short_reads": self.short_reads, "exec_digests": len(self.exec_digests)}
+                "short_reads": self.short_reads, "exec_digests": len(self.exec_digests), "abort_samples": self.abort_samples}
 
 
 def run_world(prop, case, ctx, sub):
